@@ -261,7 +261,7 @@ def run_history(spy, fam, params, history, twin_memo, rtol=1e-9):
         with spy.real_step() as ev:
             rec.real = capture(op.fn, real)
         rec.events = list(ev)
-        hits += sum(1 for (_, h, _) in rec.events if h)
+        hits += sum(1 for (t, h, _) in rec.events if h and t not in EXEMPT_TAGS)
         rec.own_hit = bool(op.memo_tag) and any(h and t == op.memo_tag for (t, h, _) in rec.events)
         own_hits += int(rec.own_hit)
         fam.clear_twin_memos(twin)
